@@ -9,5 +9,5 @@ python3 tools/gen_from_src.py
 (cd ocaml && ./build.sh)
 cp /repo/Cargo.lock harness/Cargo.lock
 (cd harness && cargo build --offline --target-dir target && cargo build --offline --release --target-dir target \
-   && cargo build --offline --release --no-default-features --target-dir target/nopf)
+   && cargo build --offline --release --no-default-features --target-dir target/nopf && cargo build --offline --features sendsync_check --bin sendsync --target-dir target)
 echo setup-ok
